@@ -185,7 +185,7 @@ def h_piecewise(ctx, fname, nmax):
 
 def units(tier, seed):
     out = []
-    nmax = 5 if tier == 'quick' else 12
+    nmax = 5 if tier == 'quick' else 20
     opts = {'property': PROP, 'float_tol': 1e-5, 'definedness': True}
 
     def add(name, func, **kw):
